@@ -1108,24 +1108,20 @@ theorem concealEnd_pos {last : Nat} (h : last ≠ 0) (idx : Int) (A : List Messa
           (decide (idx > endIdxOf idx (scanEndRev last uint32Invalid A.reverse).2)) (scanEndRev last uint32Invalid A.reverse).1)).reverse := by
   simp [concealEnd, h, endIdxOf]
 
-/-- **No lap or session position points into a concealed stretch**, outside the class of KF-C20-1 (F17). (The class of
-KF-C20-4 — overlapping stretches with a timestamp tie at the boundary — needed a hypothesis until /repo's fix: with
-overlapping stretches the end stage now strips every lap and session.) -/
-theorem conceal_noLeak {ph : PH} (hph : ph = lapPH ∨ ph = sesPH) (first last : Nat) (ms : List Message)
+/-- **What concealing does to each lap / session**, outside the class of KF-C20-1 (F17): the facts `Stages` about every lap
+(session) `m`, what it is after the start stage (`m1`) and after the end stage (`m'`), with the records the two scans stop
+at and the overlap flag. (The class of KF-C20-4 — overlapping stretches with a timestamp tie at the boundary — needed a
+hypothesis until /repo's fix: with overlapping stretches the end stage now strips every lap and session.) -/
+theorem conceal_stages {ph : PH} (hph : ph = lapPH ∨ ph = sesPH) (first last : Nat) (ms : List Message)
     (hD : DistOK ms) (hseq : lapsSeqB ph ms = true)
-    (hUr : recUniqueB ms = true) (hUl : lapUniqueB ph ms = true) (hF : unitsDisagree ph first ms = false) :
-    noLeakB ph first last ms (conceal first last ms) = true := by
+    (hUr : recUniqueB ms = true) (hF : unitsDisagree ph first ms = false) :
+    ∃ (r1 r2 : RecInfo) (ov : Bool),
+      Rel2 (fun m m' => (m.num == ph.mesgNum) = true → ∃ m1, Stages ph first last ms m m1 m' r1 r2 ov) ms (conceal first last ms) := by
   obtain ⟨hval, hseqP, hseqR⟩ := lapsSeqB_spec hseq
   have hUr' : ∀ m ∈ ms, isRecord m = true → UniqueNum fnRecordPositionLat m ∧ UniqueNum fnRecordPositionLong m := by
     intro m hm hr
     have := List.all_eq_true.mp hUr m hm
     simpa [hr, uniqueNumB, UniqueNum] using this
-  have hUl' : ∀ m ∈ ms, (m.num == ph.mesgNum) = true →
-      UniqueNum ph.sLat m ∧ UniqueNum ph.sLong m ∧ UniqueNum ph.eLat m ∧ UniqueNum ph.eLong m := by
-    intro m hm hn
-    have := List.all_eq_true.mp hUl m hm
-    simp only [hn, Bool.not_true, Bool.false_or, uniqueNumB, Bool.and_eq_true, decide_eq_true_eq] at this
-    exact ⟨this.1.1.1, this.1.1.2, this.1.2, this.2⟩
   -- the start stage
   obtain ⟨S, hS⟩ : ∃ S, S = scanStart first 0 ms := ⟨_, rfl⟩
   obtain ⟨r1, hr1⟩ : ∃ r1, r1 = recAt S.1 S.2 := ⟨_, rfl⟩
@@ -1290,31 +1286,45 @@ theorem conceal_noLeak {ph : PH} (hph : ph = lapPH ∨ ph = sesPH) (first last :
         rw [List.reverse_reverse] at c'
         exact Rel2.imp (fun a b h hn => ⟨fun h0 => absurd h0 hl0, fun _ _ => h hn, fun _ h1 => (by cases h1)⟩) c'
   -- one lap / session at a time
+  refine ⟨r1, r2, ov, ?_⟩
+  refine Rel2.comp ?_ (Rel2.and (Rel2.and hTouchA startInfo) (Rel2.left_mem hTouchA)) endInfo
+  intro m m1 m' ⟨⟨ht, hst⟩, hmem⟩ hen hn
+  have hsT := touch_sameT hph ht
+  have hn1 : (m1.num == ph.mesgNum) = true := by rw [hsT.isPh]; exact hn
+  obtain ⟨hs0, hsN⟩ := hst hn
+  obtain ⟨he0, heA, heN⟩ := hen hn1
+  obtain ⟨_, _, hvm⟩ := hval m hmem hn
+  refine ⟨m1,
+    { endLt := ?_, s1 := hsT.start, e1 := hsT.endT, start0 := hs0, startNone := G1, startSome := G2, start := hsN,
+      end0 := he0, endNone := fun hl0 hnone => heA hl0 (G3 hl0 hnone), endOv := fun hl0 ho => heA hl0 (G3ov ho),
+      endSome := ?_, ovF := fun hf0 hl0 r0 rl h0 hl => Gov hf0 hl0 r0 rl h0 hl }⟩
+  · have hdiv : u32 (fval m ph.totalTimerTime) / timerScale ≤ u32 (fval m ph.totalTimerTime) := Nat.div_le_self _ _
+    have he : lapEndTime ph m = lapStartTime ph m + u32 (fval m ph.totalTimerTime) / timerScale := rfl
+    omega
+  · intro hl0 ho rl hrl
+    obtain ⟨hab, hts, hin, hout'⟩ := G4 hl0 ho rl hrl
+    obtain ⟨hc, hdd⟩ := heN hl0 hab
+    rw [(hovF ho).2] at hdd
+    exact ⟨hts, hin, hout', hc, hdd⟩
+
+/-- **No lap or session position points into a concealed stretch**, outside the class of KF-C20-1 (F17): what the two
+stages do to each lap / session (`conceal_stages`) leaves no position pointing into a stretch (`lapOK_of_stages`). -/
+theorem conceal_noLeak {ph : PH} (hph : ph = lapPH ∨ ph = sesPH) (first last : Nat) (ms : List Message)
+    (hD : DistOK ms) (hseq : lapsSeqB ph ms = true)
+    (hUr : recUniqueB ms = true) (hUl : lapUniqueB ph ms = true) (hF : unitsDisagree ph first ms = false) :
+    noLeakB ph first last ms (conceal first last ms) = true := by
+  obtain ⟨r1, r2, ov, hst⟩ := conceal_stages hph first last ms hD hseq hUr hF
   have hd := phDistinct hph
   have final : Rel2 (fun m m' => (!(m.num == ph.mesgNum) || lapOK ph first last ms m m') = true) ms (conceal first last ms) := by
-    refine Rel2.comp ?_ (Rel2.and (Rel2.and hTouchA startInfo) (Rel2.left_mem hTouchA)) endInfo
-    intro m m1 m' ⟨⟨ht, hst⟩, hmem⟩ hen
+    refine Rel2.imp ?_ (Rel2.and hst (Rel2.left_mem hst))
+    intro m m' ⟨h, hmem⟩
     cases hn : (m.num == ph.mesgNum)
     · rfl
     simp only [Bool.not_true, Bool.false_or]
-    have hsT := touch_sameT hph ht
-    have hn1 : (m1.num == ph.mesgNum) = true := by rw [hsT.isPh]; exact hn
-    obtain ⟨hs0, hsN⟩ := hst hn
-    obtain ⟨he0, heA, heN⟩ := hen hn1
-    obtain ⟨_, _, hvm⟩ := hval m hmem hn
-    refine lapOK_of_stages hd (m1 := m1) (r1 := r1) (r2 := r2) (ov := ov) ?_ (hUl' m hmem hn)
-    refine
-      { endLt := ?_, s1 := hsT.start, e1 := hsT.endT, start0 := hs0, startNone := G1, startSome := G2, start := hsN,
-        end0 := he0, endNone := fun hl0 hnone => heA hl0 (G3 hl0 hnone), endOv := fun hl0 ho => heA hl0 (G3ov ho),
-        endSome := ?_, ovF := fun hf0 hl0 r0 rl h0 hl => Gov hf0 hl0 r0 rl h0 hl }
-    · have hdiv : u32 (fval m ph.totalTimerTime) / timerScale ≤ u32 (fval m ph.totalTimerTime) := Nat.div_le_self _ _
-      have he : lapEndTime ph m = lapStartTime ph m + u32 (fval m ph.totalTimerTime) / timerScale := rfl
-      omega
-    · intro hl0 ho rl hrl
-      obtain ⟨hab, hts, hin, hout'⟩ := G4 hl0 ho rl hrl
-      obtain ⟨hc, hdd⟩ := heN hl0 hab
-      rw [(hovF ho).2] at hdd
-      exact ⟨hts, hin, hout', hc, hdd⟩
+    obtain ⟨m1, sg⟩ := h hn
+    have := List.all_eq_true.mp hUl m hmem
+    simp only [hn, Bool.not_true, Bool.false_or, uniqueNumB, Bool.and_eq_true, decide_eq_true_eq] at this
+    exact lapOK_of_stages hd sg ⟨this.1.1.1, this.1.1.2, this.1.2, this.2⟩
   exact Rel2.zip_all (p := fun m m' => !(m.num == ph.mesgNum) || lapOK ph first last ms m m') final
 
 /-- strictly increasing record timestamps exclude the class of KF-C20-4 (so the statement under `recTimesIncB`, as it
